@@ -374,6 +374,9 @@ func (g *G) stmt(c ctx) []Stmt {
 		add(1+wc, func() []Stmt { return g.returnElementOrder() })
 		add(1+2*wc, func() []Stmt { return g.counterWrittenByBody() })
 		add(1+wc, func() []Stmt { return g.mapValuesRewritten() })
+		add(1+wc, func() []Stmt { return g.longListExit(c) })
+		add(1+wc, func() []Stmt { return g.nestedMapLoops() })
+		add(1+2*ws, func() []Stmt { return g.closuresThroughHostCallback() })
 	}
 	if c.inLoop && (!c.tryBrk || g.allowControlInTry()) {
 		add(2+3*wc+ws, func() []Stmt { g.feat("break"); return []Stmt{&Break{}} })
@@ -711,6 +714,116 @@ func (g *G) mapValuesRewritten() []Stmt {
 	}
 }
 
+// longListExit: break, continue and return inside a for-in over a LONG list act exactly as over a
+// short one: break leaves the loop at once, wherever in the list it happens
+func (g *G) longListExit(c ctx) []Stmt {
+	g.feat("forin-long-list-exit")
+	n := 257 + g.R.Intn(500)
+	at := int64(g.R.Intn(n))
+	if g.R.Intn(2) == 0 {
+		at = int64(g.R.Intn(8))
+	}
+	lit := &ListLit{}
+	for i := 0; i < n; i++ {
+		lit.Elems = append(lit.Elems, &IntLit{V: int64(i)})
+	}
+	cnt, l := g.fresh("lc"), g.fresh("ll")
+	incr := &Assign{LHS: []Expr{&Name{N: cnt}}, RHS: []Expr{&Binary{Op: "+", L: &Name{N: cnt}, R: &IntLit{V: 1}}}}
+	hit := &Binary{Op: "==", L: &Name{N: "lv"}, R: &IntLit{V: at}}
+	rdc := &ExprStmt{X: &Call{Fn: "rd", Args: []Expr{&StrLit{V: cnt}, &Name{N: cnt}}}}
+	init := []Stmt{&Assign{LHS: []Expr{&Name{N: l}}, RHS: []Expr{lit}}, &Assign{LHS: []Expr{&Name{N: cnt}}, RHS: []Expr{&IntLit{V: 0}}}}
+	switch g.R.Intn(4) {
+	case 0:
+		return append(init, &ForIn{Vars: []string{"lv"}, X: &Name{N: l}, Body: []Stmt{&If{Cond: hit, Then: []Stmt{&ExprStmt{X: g.p()}, &Break{}}}, incr}}, rdc)
+	case 1:
+		return append(init, &ForIn{Vars: []string{"lv"}, X: &Name{N: l}, Body: []Stmt{&If{Cond: hit, Then: []Stmt{&Continue{}}}, incr}}, rdc)
+	case 2:
+		// the break sits in an inner loop: only that one is left, every round of the long loop runs
+		return append(init, &ForIn{Vars: []string{"lv"}, X: &Name{N: l}, Body: []Stmt{
+			&ForIn{Vars: []string{"lw"}, X: &ListLit{Elems: []Expr{&IntLit{V: 1}, &IntLit{V: 2}}}, Body: []Stmt{&Break{}}}, incr}}, rdc)
+	default:
+		fn := g.fresh("lf")
+		return append(init, &ExprStmt{X: &FuncLit{Name: fn, Body: []Stmt{
+			&ForIn{Vars: []string{"lv"}, X: &Name{N: l}, Body: []Stmt{&If{Cond: hit, Then: []Stmt{&Return{Exprs: []Expr{&Name{N: cnt}}}}}, incr}},
+			&Return{Exprs: []Expr{&IntLit{V: -1}}}}}},
+			&ExprStmt{X: &Call{Fn: "rd", Args: []Expr{&StrLit{V: fn}, &Call{Fn: fn}}}}, rdc)
+	}
+}
+
+// nestedMapLoops: a map loop inside a map loop, after an earlier map loop of the same invocation
+// has ended, and run twice: every loop visits exactly the entries of ITS map
+func (g *G) nestedMapLoops() []Stmt {
+	g.feat("forin-map-nested-in-map")
+	id := g.probeID()
+	mk := func(prefix string, n int, base int64) *MapLit {
+		m := &MapLit{}
+		for i := 0; i < n; i++ {
+			m.Keys = append(m.Keys, &StrLit{V: prefix + strconv.Itoa(i)})
+			m.Vals = append(m.Vals, &IntLit{V: base + int64(i)})
+		}
+		return m
+	}
+	mo, mi := g.fresh("mo"), g.fresh("mi")
+	rd2 := func(tag, k, v string) Stmt {
+		return &ExprStmt{X: &Call{Fn: "rd", Args: []Expr{&StrLit{V: tag}, &ListLit{Elems: []Expr{&Name{N: k}, &Name{N: v}}}}}}
+	}
+	nest := func() Stmt {
+		return &ForIn{Vars: []string{"ok", "ov"}, X: &Name{N: mo}, Body: []Stmt{rd2("o", "ok", "ov"),
+			&ForIn{Vars: []string{"ik", "iv"}, X: &Name{N: mi}, Body: []Stmt{rd2("i", "ik", "iv")}}, rd2("o2", "ok", "ov")}}
+	}
+	body := []Stmt{
+		&Assign{LHS: []Expr{&Name{N: mo}}, RHS: []Expr{mk("a", 3+g.R.Intn(3), 10)}},
+		&Assign{LHS: []Expr{&Name{N: mi}}, RHS: []Expr{mk("b", 3+g.R.Intn(3), 20)}},
+		&ExprStmt{X: &Call{Fn: "mb", Args: []Expr{&IntLit{V: id}}}},
+		&ForIn{Vars: []string{"ek", "ev"}, X: &Name{N: mi}, Body: []Stmt{rd2("e", "ek", "ev")}},
+		nest(), nest(),
+		&ExprStmt{X: &Call{Fn: "me", Args: []Expr{&IntLit{V: id}}}},
+	}
+	if g.R.Intn(2) == 0 {
+		fn := g.fresh("mf")
+		return []Stmt{&ExprStmt{X: &FuncLit{Name: fn, Body: append(body, &Return{Exprs: []Expr{&IntLit{V: 0}}})}}, &ExprStmt{X: &Call{Fn: fn}}}
+	}
+	return body
+}
+
+// closuresThroughHostCallback: different closures of one shape handed to a Go function from ONE
+// call site (a loop body, a function called again): each invocation runs the closure it was
+// given, in the scope that closure captured
+func (g *G) closuresThroughHostCallback() []Stmt {
+	g.feat("closures-through-host-callback")
+	mk, fs := g.fresh("hm"), g.fresh("hf")
+	host := []string{"hcb", "hcbe", "hcbv"}[g.R.Intn(3)]
+	// the closure returns what the callback type of the host function declares
+	cbBody := func(read string) []Stmt {
+		b := []Stmt{&ExprStmt{X: &Call{Fn: "rd", Args: []Expr{&StrLit{V: "cb"}, &Name{N: read}}}}}
+		switch host {
+		case "hcbe":
+			b = append(b, &Return{Exprs: []Expr{&NilLit{}}})
+		case "hcbv":
+			b = append(b, &Return{Exprs: []Expr{&IntLit{V: 1}, &NilLit{}}})
+		}
+		return b
+	}
+	factory := &ExprStmt{X: &FuncLit{Name: mk, Params: []string{"q0"}, Body: []Stmt{
+		&Return{Exprs: []Expr{&FuncLit{Body: cbBody("q0")}}}}}}
+	list := &Assign{LHS: []Expr{&Name{N: fs}}, RHS: []Expr{&ListLit{Elems: []Expr{
+		&Call{Fn: mk, Args: []Expr{&IntLit{V: 1}}}, &Call{Fn: mk, Args: []Expr{&IntLit{V: 2}}}, &Call{Fn: mk, Args: []Expr{&IntLit{V: 3}}}}}}}
+	switch g.R.Intn(3) {
+	case 0:
+		return []Stmt{factory, list, &ForIn{Vars: []string{"hc"}, X: &Name{N: fs}, Body: []Stmt{&ExprStmt{X: &Call{Fn: host, Args: []Expr{&Name{N: "hc"}}}}}}}
+	case 1:
+		// a literal written in a nested block of the loop body: a new closure over a new scope each round
+		return []Stmt{&ForIn{Vars: []string{"hv"}, X: &ListLit{Elems: []Expr{&IntLit{V: 1}, &IntLit{V: 2}, &IntLit{V: 3}}}, Body: []Stmt{
+			&If{Cond: &BoolLit{V: true}, Then: []Stmt{&VarStmt{Names: []string{"hw"}, Exprs: []Expr{&Binary{Op: "*", L: &Name{N: "hv"}, R: &IntLit{V: 10}}}},
+				&ExprStmt{X: &Call{Fn: host, Args: []Expr{&FuncLit{Body: cbBody("hw")}}}}}}}}}
+	default:
+		ap := g.fresh("ha")
+		return []Stmt{factory, &ExprStmt{X: &FuncLit{Name: ap, Params: []string{"q1"}, Body: []Stmt{&ExprStmt{X: &Call{Fn: host, Args: []Expr{&Name{N: "q1"}}}}, &Return{Exprs: []Expr{&IntLit{V: 0}}}}}},
+			&ExprStmt{X: &Call{Fn: ap, Args: []Expr{&Call{Fn: mk, Args: []Expr{&IntLit{V: 4}}}}}},
+			&ExprStmt{X: &Call{Fn: ap, Args: []Expr{&Call{Fn: mk, Args: []Expr{&IntLit{V: 5}}}}}}}
+	}
+}
+
 // recursiveDefers: a function that defers and re-enters itself, used several times: every
 // invocation keeps its own list of deferred calls
 func (g *G) recursiveDefers() []Stmt {
@@ -853,7 +966,17 @@ func (g *G) callbackThrows(c ctx) []Stmt {
 	}
 	var call Expr
 	if g.R.Intn(2) == 0 {
-		call = &Call{Fn: "hcb", Args: []Expr{&FuncLit{Body: []Stmt{&ExprStmt{X: g.p()}, fail, &ExprStmt{X: g.p()}}}}}
+		// the callback type may declare no result, an error result, or a value and an error
+		host := []string{"hcb", "hcbe", "hcbv"}[g.R.Intn(3)]
+		body := []Stmt{&ExprStmt{X: g.p()}, fail, &ExprStmt{X: g.p()}}
+		switch host {
+		case "hcbe":
+			body = append(body, &Return{Exprs: []Expr{&NilLit{}}})
+		case "hcbv":
+			body = append(body, &Return{Exprs: []Expr{&IntLit{V: 1}, &NilLit{}}})
+		}
+		g.feat("callback-error:" + host)
+		call = &Call{Fn: host, Args: []Expr{&FuncLit{Body: body}}}
 	} else {
 		call = &Call{Fn: "heach", Args: []Expr{&ListLit{Elems: []Expr{&IntLit{V: 1}, &IntLit{V: 2}, &IntLit{V: 3}}},
 			&FuncLit{Params: []string{"q"}, Body: []Stmt{&ExprStmt{X: &Call{Fn: "h1", Args: []Expr{&Name{N: "q"}}}},
